@@ -207,9 +207,12 @@ def gen_source(rng):
     return "\n".join(out) + "\n"
 
 
-def run_worker(repo, spec, hashseed, timeout=300):
+def run_worker(repo, spec, hashseed, timeout=240):
     env = dict(os.environ, PYTHONHASHSEED=str(hashseed))
-    p = subprocess.run([sys.executable, "-c", WORKER, str(repo)], input=json.dumps(spec), capture_output=True, text=True, env=env, timeout=timeout)
+    try:
+        p = subprocess.run([sys.executable, "-c", WORKER, str(repo)], input=json.dumps(spec), capture_output=True, text=True, env=env, timeout=timeout)
+    except subprocess.TimeoutExpired:
+        return {"_error": f"timeout after {timeout} s"}
     if p.returncode != 0:
         return {"_error": p.stderr[-400:]}
     return json.loads(p.stdout.strip().splitlines()[-1])
@@ -416,6 +419,12 @@ THOROUGH_CONFIGS = [[a, o] for a in ("arm", "riscv", "x86_64", "arm:thumb", "ris
 
 def check(ctx):
     check_orderedset(ctx)
+    if ctx.failures:
+        # the compiler itself is built on OrderedSet: with a misbehaving class the recompilation
+        # would hang or crash in every worker and add nothing to the failing inputs already found
+        ctx.note("determinism search skipped: OrderedSet itself fails its property")
+        ctx.extra_cov["determinism_search"] = {"role": "skipped (OrderedSet failures found first)"}
+        return
 
     # ---- failing-input search for process-level determinism (NOT part of the proof) ----
     rng = ctx.rng
